@@ -156,6 +156,17 @@ def op_statements(req):
     return {"statements": stmts, "parser_output": enc(tables)}
 
 
+def op_markers(req):
+    """parse_data with parse_statement replaced by a marker: the sequence of statements, SET entries and comments"""
+    p = DDLParser(req["ddl"], **req.get("ctor", {}))
+
+    def ps():
+        p.tables.append({"__stmt__": p.statement})
+
+    p.parse_statement = ps
+    return enc(p.parse_data())
+
+
 def op_preprocess(req):
     p = DDLParser(req["ddl"])
     return p.pre_process_data(p.data)
